@@ -250,6 +250,10 @@ func init() {
 			return VBad()
 		}
 		d, o := mkDescN(specOfVal(a[0]), a[2].U()), mkDescN(specOfVal(a[1]), a[3].U())
+		// the argument of CanClose / Equal may be the caller's own implementation of the interface (foreign.go)
+		if d.CanClose(foreignSegDesc{o}) != d.CanClose(o) || d.Equal(foreignSegDesc{o}) != d.Equal(o) {
+			noteUnstable("CanClose / Equal treat a caller-written SegmentationDescriptor (forwarding every method) differently from the library's own value")
+		}
 		return VL(VBool(d.CanClose(o)), VBool(d.IsIn()), VBool(d.IsOut()), VBool(o.IsIn()), VBool(o.IsOut()))
 	})
 	// seg.closedet d o k: CanClose on descriptors that are not attached to a signal (k = 1: d detached, 2: o detached,
